@@ -56,11 +56,11 @@ def write_alphabet(path, lines, calls, max_id, extra_tokens=()):
     return recs, crecs
 
 
-def write_cfg(path, ver, flavour, max_id, max_jobs, depth, persist, invariants=None, props=None, view=False):
+def write_cfg(path, ver, flavour, max_id, max_jobs, depth, persist, invariants=None, props=None, view=False, react=True):
     with open(path, "w", encoding="utf-8") as fh:
         fh.write("SPECIFICATION MCSpec\n")
         fh.write(f'CONSTANTS GwVer = "{ver}"\n Flavour = "{flavour}"\n MaxId = {max_id}\n MaxJobs = {max_jobs}\n'
-                 f' IdGiveUpFree = FALSE\n MaxDepth = {depth}\n WithPersist = {"TRUE" if persist else "FALSE"}\n')
+                 f' IdGiveUpFree = FALSE\n MaxDepth = {depth}\n WithPersist = {"TRUE" if persist else "FALSE"}\n WithReact = {"TRUE" if react else "FALSE"}\n')
         fh.write("CONSTRAINT Bound\nCHECK_DEADLOCK FALSE\n")
         for inv in (INVARIANTS if invariants is None else invariants):
             fh.write(f"INVARIANT {inv}\n")
@@ -109,8 +109,9 @@ def simulate(name, wd, ver, flavour, lines, calls, *, num, depth, seed, max_id=4
             body = m.group(1)
             a = re.search(r'a \|-> "(\w+)"', body).group(1)
             i = int(re.search(r"i \|-> (\d+)", body).group(1))
+            k = int(re.search(r"r \|-> (\d+)", body).group(1))      # the callback's re-entrant call (index into calls), 0 = none
             if a != "Init":
-                acts.append((a, i))
+                acts.append((a, i, k))
         if acts:
             behaviours.append(acts)
     shutil.rmtree(simdir, ignore_errors=True)
